@@ -1,5 +1,5 @@
 use crate::distributions::*;
-use crate::functions::gamma;
+use crate::functions::ln_gamma;
 
 /// Implements the [Chi square](https://en.wikipedia.org/wiki/Chi-square_distribution) distribution.
 #[derive(Debug, Clone, Copy)]
@@ -61,7 +61,12 @@ impl Continuous for ChiSquared {
             return 0.;
         }
         let half_k = (self.dof as f64) / 2.;
-        1. / (2_f64.powf(half_k) * gamma(half_k)) * x.powf(half_k - 1.) * (-x / 2.).exp()
+        if x == 0. {
+            // x^(k/2 - 1) at 0: 1 for k = 2, 0 for k > 2
+            return if self.dof == 2 { 0.5 } else { 0. };
+        }
+        // in log space: x^(k/2 - 1) overflows in the far tail for large k
+        ((half_k - 1.) * x.ln() - x / 2. - half_k * 2_f64.ln() - ln_gamma(half_k)).exp()
     }
 }
 
